@@ -23,6 +23,9 @@ What is modelled as coded:
   everything from the first one starting with `#` ignored, each built through the order-checking
   syllable builder (`Chewing.parse`).  A record without syllables, or whose number of syllables
   differs from the number of characters, is accepted (finding F27);
+* a line that is not valid UTF-8 (`readRawLines`, `compileRaw`) makes `run` return the I/O error at once:
+  exit status 1, nothing reported by number, nothing built even with `--skip-invalid` (finding F45) — except
+  the CSV header line, which is skipped unread;
 * `run` (`compileRun`): CSV mode skips line 0; every failing line is reported with its 1-based number;
   nothing is built if a line failed unless `--skip-invalid`;
 * `TrieBuilder::insert` (`trieInsert`): same key and same phrase text replaces, otherwise appends;
@@ -190,6 +193,75 @@ def compile (f : Flags) (src : List Text) : Except (List (Nat × LineErr)) (List
   match (compileRun f src).inserted with
   | some rs => .ok rs
   | none => .error (compileRun f src).reported
+
+/-! ### source files as bytes: lines that are not valid UTF-8 -/
+
+def isCont (b : Nat) : Bool := 0x80 ≤ b && b ≤ 0xBF
+
+/-- `str::from_utf8`, strict (no overlong forms, no surrogates, nothing above U+10FFFF); `fuel` > length -/
+def decodeUtf8F : Nat → List Nat → Option Text
+  | 0, _ => none
+  | _ + 1, [] => some []
+  | fuel + 1, b :: rest =>
+    if b < 0x80 then (decodeUtf8F fuel rest).map (b :: ·)
+    else if 0xC2 ≤ b && b ≤ 0xDF then
+      match rest with
+      | c :: r =>
+        if isCont c then (decodeUtf8F fuel r).map (((b - 0xC0) * 64 + (c - 0x80)) :: ·) else none
+      | _ => none
+    else if 0xE0 ≤ b && b ≤ 0xEF then
+      match rest with
+      | c :: d :: r =>
+        if (if b == 0xE0 then 0xA0 else 0x80) ≤ c && c ≤ (if b == 0xED then 0x9F else 0xBF) && isCont d then
+          (decodeUtf8F fuel r).map (((b - 0xE0) * 4096 + (c - 0x80) * 64 + (d - 0x80)) :: ·)
+        else none
+      | _ => none
+    else if 0xF0 ≤ b && b ≤ 0xF4 then
+      match rest with
+      | c :: d :: e :: r =>
+        if (if b == 0xF0 then 0x90 else 0x80) ≤ c && c ≤ (if b == 0xF4 then 0x8F else 0xBF) && isCont d && isCont e then
+          (decodeUtf8F fuel r).map (((b - 0xF0) * 262144 + (c - 0x80) * 4096 + (d - 0x80) * 64 + (e - 0x80)) :: ·)
+        else none
+      | _ => none
+    else none
+
+def decodeUtf8 (bs : List Nat) : Option Text := decodeUtf8F (bs.length + 1) bs
+
+/-- a file as `BufRead::lines` yields it: `none` = `Err(InvalidData)`, the line is not valid UTF-8 -/
+abbrev RawLines := List (Option Text)
+
+/-- `BufRead::lines` on bytes: the chunks between line feeds (none for an empty tail), each decoded on its
+    own; a carriage return before the line feed is dropped -/
+def readRawLines (bs : List Nat) : RawLines := go bs []
+where
+  go : List Nat → List Nat → RawLines
+    | [], acc => if acc.isEmpty then [] else [decodeUtf8 acc.reverse]
+    | b :: bs, acc =>
+      if b == 10 then (decodeUtf8 acc.reverse).map (fun l => finishLine l.reverse) :: go bs [] else go bs (b :: acc)
+
+/-- 0-based index of the first line `run` reads with `line?` that is not valid UTF-8 (the CSV header is
+    skipped before it is looked at) -/
+def firstInvalid (f : Flags) : Nat → RawLines → Option Nat
+  | _, [] => none
+  | idx, l :: ls =>
+    if f.csv && idx == 0 then firstInvalid f (idx + 1) ls
+    else match l with
+      | none => some idx
+      | some _ => firstInvalid f (idx + 1) ls
+
+inductive Outcome where
+  /-- `let line = line?;` fails at this line (0-based): "stream did not contain valid UTF-8", exit status 1, no
+      `Parsing failed at line` message at all (they are printed after the loop), nothing built — with or
+      without `--skip-invalid` -/
+  | ioError (line : Nat)
+  | ran (r : CompileResult)
+deriving Repr, DecidableEq
+
+/-- `init_database::run` on a file given as bytes -/
+def compileRaw (f : Flags) (src : RawLines) : Outcome :=
+  match firstInvalid f 0 src with
+  | some i => .ioError i
+  | none => .ran (compileRun f (src.map (·.getD [])))
 
 /-! ### the dumper -/
 
